@@ -3,6 +3,7 @@ package verifsim
 import (
 	"fmt"
 	"hash/fnv"
+	"runtime"
 	"time"
 
 	"github.com/frankkopp/FrankyGo/internal/position"
@@ -90,6 +91,8 @@ type Sim struct {
 	// (violates the one-goroutine-per-instant invariant: harness failure).
 	Reentry   bool
 	Exhausted bool
+	Abort     bool
+	Killed    int
 
 	Cost      CostModel
 	costRng   *PRNG
@@ -311,6 +314,13 @@ func hookYield(kind int, key uint64) {
 	}
 	switch kind {
 	case verifhook.SearchNode:
+		if s.Exhausted || s.Abort {
+			// kill switch: the run is inconclusive; end the search goroutine
+			// (its deferred release of the running lock still runs)
+			s.SearchActive = false
+			s.Killed++
+			runtime.Goexit()
+		}
 		s.nodeCalls++
 		if s.nodeCalls%int64(s.Cost.Every) != 0 {
 			return
